@@ -418,7 +418,7 @@ CHECKS["C17"] = {
     "level": "exploration",
     "rule": ("A case is a service descriptor built in Go (no protoc needed): package p / a.b_c.d / pkg_x / x.Y, go_package with or without alias, 1..4 services of 0..6 methods with names drawn from an alphabet of underscore/mixed-case/digit/"
              "near-colliding identifiers (A, A_B, a_b, Ab, get_item, listItems, Sync_All, Do_It2, ...), all four streaming combinations, request/response types that are local messages, a message imported from another Go package (named other, context or drpc - names the generated code also imports), or a well-known type, "
-             "plugin options protolib default/custom/github.com/gogo/protobuf and json on/off, optionally a second .proto file of the same Go package (with a service of its own) generated by the same plugin invocation. protoc-gen-go (module cache; protoc-gen-gogo from the module cache for the gogo protolib, whose messages must be gogo messages: the well-known type is replaced by a local message there) and protoc-gen-go-drpc (built from /repo each run) are fed the CodeGeneratorRequest; the harness independently derives, from the descriptor alone, the expected RPC strings, "
+             "plugin options protolib default/custom (also under an import path ending in /proto)/github.com/gogo/protobuf and json on/off, optionally a second .proto file of the same Go package (with a service of its own) generated by the same plugin invocation. protoc-gen-go (module cache; protoc-gen-gogo from the module cache for the gogo protolib, whose messages must be gogo messages: the well-known type is replaced by a local message there) and protoc-gen-go-drpc (built from /repo each run) are fed the CodeGeneratorRequest; the harness independently derives, from the descriptor alone, the expected RPC strings, "
              "Go identifiers and method signatures and emits a driver: a server implementation with exactly those signatures, mux registration, Description checks (NumMethods, Method(i) rpc string, Method(n) not ok) and one client call per method over a real drpcconn/drpcserver pair (unary and server-streaming calls with a local request type are preceded by a request the encoding refuses to marshal - a proto3 string that is not valid UTF-8 - after which the normal call must still go through) "
              "through a connection wrapper that records the RPC name each stub uses. Verdict: go vet of generated code + driver succeeds, Register returns nil, every method round-trips, client and description RPC strings equal '/'+package.Service+'/'+Method. "
              "Non-trivial: >= 2 services, a streaming method, or an identifier that needs mangling. Distinct by descriptor."),
